@@ -14,7 +14,7 @@ const PROP: &str = "C06";
 fn alphabet() -> Vec<Op> {
     use Op::*;
     vec![
-        Recip, Sqrt, Cbrt, Exp, Exp2, ExpM1, Ln, Log(2.5), Log2, Log10, Ln1p, Sin, Cos, SinCosS, SinCosC, Tan, Asin, Acos, Atan, Sinh, Cosh,
+        Recip, Sqrt, Cbrt, Exp, Exp2, ExpM1, Ln, Log(2.5), Log(2.0), Log(10.0), Log2, Log10, Ln1p, Sin, Cos, SinCosS, SinCosC, Tan, Asin, Acos, Atan, Sinh, Cosh,
         Tanh, Asinh, Acosh, Atanh, SphJ0, SphJ1, SphJ2, Abs, Signum, Neg, Inv, Powi(-2), Powi(0), Powi(1), Powi(2), Powi(3), Powi(5), Powf(0.0),
         Powf(1.0), Powf(2.0), Powf(0.5), Powf(2.5), Powf(-1.5), AddF(0.75), SubF(0.75), MulF(-1.5), DivF(2.0), AddAF(0.75), SubAF(0.75), MulAF(-1.5),
         DivAF(2.0), Add, Sub, Mul, Div, AddA, SubA, MulA, DivA, AddRef, SubRef, MulRef, DivRef, Atan2, Powd, AbsSub, MulAdd, Sum(2), Product(2),
@@ -258,7 +258,8 @@ impl<'a> Visitor for Enumerate<'a> {
 
 macro_rules! cmp_checks {
     ($st:expr, $name:expr, $mk:expr, $f:ty) => {{
-        let reals: [$f; 9] = [<$f>::NEG_INFINITY, -2.0, -0.0, 0.0, 1.0, 1.0, 2.0, <$f>::INFINITY, <$f>::NAN];
+        // 1000 / 1000.5 / 1000.0001: pairs that lie between an absolute and a relative tolerance
+        let reals: [$f; 12] = [<$f>::NEG_INFINITY, -2.0, -0.0, 0.0, 1.0, 1.0, 2.0, <$f>::INFINITY, <$f>::NAN, 1000.0, 1000.5, 1000.0001];
         for (i, &a) in reals.iter().enumerate() {
             for (j, &b) in reals.iter().enumerate() {
                 for va in 0..3usize {
@@ -269,7 +270,7 @@ macro_rules! cmp_checks {
                         $st.transitions += 10;
                         $st.state(hash64(&($name, i, j, va, vb)));
                         $st.nontrivial(hash64(&($name, i, j, va, vb)));
-                        let results: [(&str, bool, bool); 9] = [
+                        let results: [(&str, bool, bool); 13] = [
                             ("==", x == y, a == b),
                             ("!=", x != y, a != b),
                             ("<", x < y, a < b),
@@ -279,6 +280,11 @@ macro_rules! cmp_checks {
                             ("abs_diff_eq", approx::AbsDiffEq::abs_diff_eq(&x, &y, $mk(0.5, 7)), approx::AbsDiffEq::abs_diff_eq(&a, &b, 0.5)),
                             ("relative_eq", approx::RelativeEq::relative_eq(&x, &y, $mk(1e-6, 3), $mk(0.25, 4)), approx::RelativeEq::relative_eq(&a, &b, 1e-6, 0.25)),
                             ("ulps_eq", approx::UlpsEq::ulps_eq(&x, &y, $mk(1e-6, 2), 4), approx::UlpsEq::ulps_eq(&a, &b, 1e-6, 4)),
+                            // the two tolerances of relative_eq far apart, in both orders
+                            ("relative_eq(eps small)", approx::RelativeEq::relative_eq(&x, &y, $mk(1e-3, 5), $mk(1e-2, 6)), approx::RelativeEq::relative_eq(&a, &b, 1e-3, 1e-2)),
+                            ("relative_eq(rel small)", approx::RelativeEq::relative_eq(&x, &y, $mk(0.75, 5), $mk(1e-6, 6)), approx::RelativeEq::relative_eq(&a, &b, 0.75, 1e-6)),
+                            ("abs_diff_eq(small)", approx::AbsDiffEq::abs_diff_eq(&x, &y, $mk(1e-3, 8)), approx::AbsDiffEq::abs_diff_eq(&a, &b, 1e-3)),
+                            ("ulps_eq(many)", approx::UlpsEq::ulps_eq(&x, &y, $mk(0.0, 2), 1 << 20), approx::UlpsEq::ulps_eq(&a, &b, 0.0, 1 << 20)),
                         ];
                         for (op, got, want) in results {
                             $st.outcome(hash64(&(op, got)));
